@@ -296,6 +296,13 @@ def render_str(L, s, in_bracket):
 
 
 def render(L, v, in_bracket=False):
+  if in_bracket and L.flip(0.04):
+    L.used.add('parenthesised-nested')
+    return '(' + L.ws(True) + _render(L, v, True) + L.ws(True) + ')'
+  return _render(L, v, in_bracket)
+
+
+def _render(L, v, in_bracket=False):
   t = type(v)
   if v is None:
     return 'None'
@@ -345,7 +352,7 @@ def render(L, v, in_bracket=False):
 def render_value(rng, v, wild=0.5, multiline=True):
   L = Layout(rng, wild, multiline)
   text = render(L, v)
-  if L.flip(0.15) and type(v) not in (tuple,):
+  if L.flip(0.15):
     # parenthesised value: still the value itself
     text = '(' + L.ws(True) + text + L.ws(True) + ')'
     L.used.add('parenthesised')
